@@ -272,10 +272,13 @@ class Ctx:
         return r, round(time.time() - t, 3), m
 
 
-def explore(fn, max_paths=2000, on_abort=None):
-    """Enumerate the paths of fn() by re-execution.  Yields (ctx, result, aborted_exception)."""
+def explore(fn, max_paths=2000, on_abort=None, max_seconds=None):
+    """Enumerate the paths of fn() by re-execution.  Yields (ctx, result, aborted_exception).
+    Budget is raised when max_paths (or max_seconds of wall time) is used up with paths still pending: the caller
+    reports the exploration as incomplete (inconclusive), never as a pass."""
     stack = [([], None)]
     n = 0
+    t_start = time.time()
     while stack:
         prefix, wit0 = stack.pop()
         ctx = Ctx(prefix)
@@ -298,6 +301,8 @@ def explore(fn, max_paths=2000, on_abort=None):
         yield ctx, res, exc
         if n >= max_paths and stack:
             raise Budget('path budget %d exhausted with %d pending' % (max_paths, len(stack)))
+        if max_seconds is not None and stack and time.time() - t_start > max_seconds:
+            raise Budget('time budget %ds exhausted after %d paths with %d pending' % (max_seconds, n, len(stack)))
     Ctx.cur = None
 
 
